@@ -98,8 +98,30 @@ theorem src_step_eq (s : Session δ ν σ) (op : Op ν σ) : srcStep s op = step
   | getRunner base dyn solver => exact get_runner_eq s base dyn solver
   | runnerRun h p => exact runner_run_eq s h p
 
+
+/-- a whole call history executed by the source renderings -/
+def srcTrace (s : Session δ ν σ) : List (Op ν σ) → List (Outcome ν σ)
+  | [] => []
+  | op :: ops => (srcStep s op).2 :: srcTrace (srcStep s op).1 ops
+
+def srcExec (s : Session δ ν σ) : List (Op ν σ) → Session δ ν σ
+  | [] => s
+  | op :: ops => srcExec (srcStep s op).1 ops
+
+/-- every history: the outcomes and the final session of the source renderings are those of the session model, so every C11 theorem about
+`Session.trace` / `Session.exec` (`history_independent`, `snapshot_never_stale`, `explicit_runner_pure`, `definition_unchanged`) speaks about
+the source text of `run`, `get_runner`, `set_default_parameters` and `ModelResults` -/
+theorem src_trace_eq (ops : List (Op ν σ)) : ∀ (s : Session δ ν σ), srcTrace s ops = trace s ops ∧ srcExec s ops = exec s ops := by
+  induction ops with
+  | nil => intro s; exact ⟨rfl, rfl⟩
+  | cons op rest ih =>
+    intro s
+    simp only [srcTrace, srcExec, trace, exec, src_step_eq]
+    exact ⟨by rw [(ih _).1], (ih _).2⟩
+
 end
 
+#print axioms src_trace_eq
 #print axioms src_step_eq
 #print axioms run_eq
 #print axioms get_runner_eq
